@@ -28,25 +28,67 @@ def _key(x):
     return None if "var:" in k or "place:" in k else k
 
 
+def _subject(x):
+    """the expression a decision is about, with the `?` plumbing removed (as in _key)"""
+    x = strip_casts(x)
+    n = 0
+    while isinstance(x, tuple) and x and n < 8:
+        if x[0] == "call" and (x[1] or "").endswith("Try::branch") and x[2]:
+            x = strip_casts(x[2][0])
+        elif x[0] == "ref":
+            x = strip_casts(x[2])
+        else:
+            break
+        n += 1
+    return x
+
+
+# pure predicates of their argument: asking twice about the same value gives the same answer
+PURE_PREDICATES = ("::is_syscall_error",)
+
+
+def _calls_in(x, out, depth=0):
+    if not isinstance(x, tuple) or depth > 25:
+        return
+    if x and x[0] == "call" and len(x) > 3 and isinstance(x[3], int):
+        out.add(x[3])
+    for y in (x[1:] if x and isinstance(x[0], str) else x):
+        if isinstance(y, tuple):
+            _calls_in(y, out, depth + 1)
+
+
 def edge_decisions(ctx):
     if getattr(ctx, "_ps_dec", None) is not None:
         return ctx._ps_dec
     cfg = ctx.cfg
-    per_edge, blocks_of = {}, {}
+    per_edge, blocks_of, defs = {}, {}, {}
     for sb in cfg.live_blocks():
         if cfg.term(sb)["k"] != "switch":
             continue
         for e in cfg.succ[sb]:
             for f in ctx.edge_facts(e):
+                k = pol = None
+                subject = f[1]
                 if f[0] == "variant" and f[2] in POS + NEG:
-                    k = _key(f[1])
-                    if k is None:
-                        continue
-                    per_edge.setdefault((e.src, e.dst), []).append((k, f[2] in POS))
-                    blocks_of.setdefault(k, set()).add(e.src)
+                    k, pol = _key(f[1]), f[2] in POS
+                elif f[0] == "truth" and isinstance(f[1], tuple) and f[1][0] == "call" and (f[1][1] or "").endswith(PURE_PREDICATES) and f[1][2]:
+                    k0 = _key(f[1][2][0])
+                    k, pol = (None if k0 is None else f"{f[1][1].split('::')[-1]}({k0})"), bool(f[2])
+                    subject = f[1][2][0]        # asking again does not change the value asked about
+                if k is None:
+                    continue
+                per_edge.setdefault((e.src, e.dst), []).append((k, pol))
+                blocks_of.setdefault(k, set()).add(e.src)
+                _calls_in(_subject(subject), defs.setdefault(k, set()))
     multi = {k for k, bs in blocks_of.items() if len(bs) >= 2}
     ctx._ps_dec = {ed: [(k, p) for k, p in ds if k in multi] for ed, ds in per_edge.items()}
     ctx._ps_dec = {ed: ds for ed, ds in ctx._ps_dec.items() if ds}
+    # a decision is about the value computed by particular call blocks: it is forgotten when one of them runs again (next loop round)
+    kill = {}
+    for k in multi:
+        for b in defs.get(k, ()):
+            kill.setdefault(b, set()).add(k)
+    ctx._ps_kill = kill
     return ctx._ps_dec
 
 
@@ -79,6 +121,9 @@ def reachable(ctx, start, avoid=frozenset(), avoid_edges=None, via_edge=None):
                 st2 = st2 | {(k, p)}
             if bad:
                 continue
+            kk = ctx._ps_kill.get(e.dst)
+            if kk:
+                st2 = frozenset(d for d in st2 if d[0] not in kk)
             if (e.dst, st2) in seen or len(seen) > 20000:
                 continue
             seen.add((e.dst, st2))
@@ -115,6 +160,9 @@ def reachable_after(ctx, via, avoid=frozenset(), avoid_edges=None):
                 st2 = st2 | {(k, p)}
             if bad:
                 continue
+            kk = ctx._ps_kill.get(e.dst)
+            if kk:
+                st2 = frozenset(d for d in st2 if d[0] not in kk)
             nxt = (e.dst, st2, passed or e.dst == via)
             if nxt in seen or len(seen) > 40000:
                 continue
